@@ -3,7 +3,7 @@
    ANY list of handlers.  A packet is a stack of relay layers (any depth) around an innermost
    message; stub6_spec is the literal type table.  id_preserving is what every built-in DHCPv6
    plugin handler satisfies (proved per plugin in the plugin developments). *)
-From Verif Require Import Base BaseProofs Net Msg6 Chain ChainProofs Server4 Server4Proofs Server6 Server6Run Server6Proofs Server6Examples.
+From Verif Require Import Base BaseProofs Net Msg6 Chain ChainProofs Server4 Server4Proofs Server6 Server6Run Server6Proofs Server6Examples Assembly AsmRefine6.
 Open Scope N_scope.
 
 Theorem reply6_type_table :
@@ -104,6 +104,47 @@ Theorem listener_always_has_interface :
 Proof. exact (@Server4Proofs.listener_always_has_interface). Qed.
 Print Assumptions listener_always_has_interface.
 
+
+Theorem assembled_is_handle6 :
+  forall (dec_pds : imsg -> list (bytes * list PrefixPlugin.hint))
+  (enc_iapd : bytes * list PrefixPlugin.lease -> bytes) (is : list inst6)
+  (lif now : Z) (oob : option Z) (pip : bytes) (pport : Z) (parsed : option pkt6)
+  (is' : list inst6) (o : outcome6),
+  srv6_step dec_pds enc_iapd is lif now oob pip pport parsed = (is', o) ->
+  o <> O6Panic ->
+  fst (handle6 (map (as_handler6 dec_pds enc_iapd now) is) lif oob pip pport parsed) =
+  out6_of o.
+Proof. exact (@AsmRefine6.srv6_refines_handle6). Qed.
+Print Assumptions assembled_is_handle6.
+
+Theorem instances_identity_preserving :
+  forall (dec_pds : imsg -> list (bytes * list PrefixPlugin.hint))
+  (enc_iapd : bytes * list PrefixPlugin.lease -> bytes) (now : Z)
+  (i : inst6), id_preserving (as_handler6 dec_pds enc_iapd now i).
+Proof. exact (@AsmRefine6.inst6_id_preserving). Qed.
+Print Assumptions instances_identity_preserving.
+
+Theorem assembled_reply6_matches_request :
+  forall (dec_pds : imsg -> list (bytes * list PrefixPlugin.hint))
+  (enc_iapd : bytes * list PrefixPlugin.lease -> bytes) (is : list inst6)
+  (lif now : Z) (oob : option Z) (pip : bytes) (pport : Z) (d : pkt6)
+  (is' : list inst6) (p : pkt6) (dip : bytes) (dport : Z) (ifx : option Z),
+  srv6_step dec_pds enc_iapd is lif now oob pip pport (Some d) = (is', O6Sent p dip dport ifx) ->
+  exists msg rm : imsg,
+  p_inner d = Some msg /\
+  p_inner p = Some rm /\
+  i_xid rm = i_xid msg /\
+  o6_get OPT_CLIENTID (i_opts rm) = o6_get OPT_CLIENTID (i_opts msg) /\
+  o6_get OPT_CLIENTID (i_opts msg) <> None /\
+  (i_type msg = MT_SOLICIT /\
+  o6_get OPT_RAPID (i_opts msg) = None /\
+  i_type rm = MT_ADVERTISE /\ o6_get OPT_RAPID (i_opts rm) = None \/
+  i_type msg = MT_SOLICIT /\
+  o6_get OPT_RAPID (i_opts msg) <> None /\
+  i_type rm = MT_REPLY /\ o6_get OPT_RAPID (i_opts rm) <> None \/
+  In (i_type msg) reply_types /\ i_type rm = MT_REPLY).
+Proof. exact (@AsmRefine6.assembled_reply6_matches_request). Qed.
+Print Assumptions assembled_reply6_matches_request.
 
 (* Non-vacuity (proofs/Server6Examples.v) *)
 Example hypotheses_satisfiable :
